@@ -7,9 +7,8 @@ import "unsafe"
 // RaceEnabled reports whether the binary was built with -race.
 const RaceEnabled = false
 
-func raceDisable()        {}
-func raceEnable()         {}
-func raceRelease(*thread) {}
+func raceDisable() {}
+func raceEnable()  {}
 
 // Acquire / Release report the program's own synchronisation to the race
 // detector (no-ops without -race).
